@@ -57,17 +57,18 @@ Definition collect_tmp_error (e : exn) : M unit :=
 Definition clear_tmp_error : M unit :=
   fun s => ({| e_errors := e_errors s; e_tmp := [] |}, Ok tt).
 
-(* RuntimeContext.__init__ (335-375): depth of the new context and the max_depth test.
-   `route_truthy` is the truth value of the route argument (None / 0 / "" are falsy). *)
-Definition new_depth (parent_depth : Z) (route_truthy : bool) : Z :=
-  if route_truthy then parent_depth else parent_depth + 1.
+(* RuntimeContext.__init__ (335-375): depth of the new context.  A context created with a route
+   (`route is not None`: field name, index, key, combinator) stays on its parent's level; one
+   created without a route (top level, nested data class) is one level deeper. *)
+Definition new_depth (parent_depth : Z) (has_route : bool) : Z :=
+  if has_route then parent_depth else parent_depth + 1.
 Definition depth_check (o : options) (depth : Z) : out unit :=
   match o_max_depth o with
   | Some d => if (negb (d =? 0)) && (d <? depth) then Raise (parse_err KDepth) else Ok tt
   | None => Ok tt
   end.
 
-(* truthiness of routes *)
-Definition route_idx (i : nat) : bool := negb (Nat.eqb i 0).
-Definition route_val (k : pyval) : bool := truthy k.
-Definition route_str (s : string) : bool := negb (String.eqb s "").
+(* every route passed by the parsers is a real object (an index, a key, a name): never None *)
+Definition route_idx (i : nat) : bool := true.
+Definition route_val (k : pyval) : bool := true.
+Definition route_str (s : string) : bool := true.
